@@ -153,6 +153,8 @@ TABLE.update({
     "fixrev_a711e42_e2e.diff": ("e2e", 'Signal x = ("signal-A", 6);\nBundle b = { ("signal-C", 20), ("signal-D", 5) };\nSignal c = x > 3;\nBundle g = c : b;\n', None),
     "c05_latch_dispatch_inverted.diff": ("contracts.c05", "MemoryBuilder.handle_latch_write", None),
     "c05_remapper_doubles.diff": ("contracts.c05", "_create_signal_remapper", None),
+    "cdispatch_any_lowered_as_all.diff": ("contracts.cdispatch", "lower_expr", "class BundleAnyExpr"),
+    "cdispatch_latch_write_as_plain_write.diff": ("contracts.cdispatch", "place_ir_operation", "class IRLatchWrite"),
     "c08_preserved_shares_network_zero.diff": ("contracts.c12", "_restore_preserved_connection", None),
     "c08_preserved_routing_failure_ignored.diff": ("contracts.c12", "_restore_preserved_connection", None),
     "c08_preserved_span_doubled.diff": ("contracts.c12", "_restore_preserved_connection", None),
